@@ -275,6 +275,92 @@ def statusTrailersOf (code : Int) (msg : Bytes) (details : List Detail) : Status
 def grpcStatusTrailers (e : ConnectErr) : StatusTrailers :=
   statusTrailersOf e.code e.message.toUTF8.toList e.details
 
+/-! ## the repository's own decoders of what its encoders write
+
+`internal/app/referenceclient/wire_details.go`, `checkGRPCStatus`: the reference client decodes the
+`grpc-message` value (`url.PathUnescape`) and the `grpc-status-details-bin` value (base64, then
+`google.rpc.Status`; outside the model as in `statusTrailersOf`) and compares code and message of
+the two carriers.  This is the decoding end of `PercentEncodeMessage` / `grpcStatusTrailers`. -/
+
+def lowerHex (n : Nat) : UInt8 := if n < 10 then UInt8.ofNat (n + 48) else UInt8.ofNat (n + 87)
+
+/-- net/url `ishex` / `unhex` -/
+def unhexDigit (b : UInt8) : Option Nat :=
+  if 0x30 ≤ b && b ≤ 0x39 then some (b.toNat - 0x30)
+  else if 0x61 ≤ b && b ≤ 0x66 then some (b.toNat - 0x61 + 10)
+  else if 0x41 ≤ b && b ≤ 0x46 then some (b.toNat - 0x41 + 10)
+  else none
+
+/-- `url.PathUnescape`: `%` must be followed by two hex digits (either case), anything else is an
+`EscapeError` for the whole string; every other byte - `+` included - stands for itself. -/
+def pathUnescape : Bytes → Option Bytes
+  | [] => some []
+  | c :: t =>
+    if c == 0x25 then
+      match t with
+      | a :: b :: t' =>
+        match unhexDigit a, unhexDigit b, pathUnescape t' with
+        | some x, some y, some r => some (UInt8.ofNat (x * 16 + y) :: r)
+        | _, _, _ => none
+      | _ => none
+    else (pathUnescape t).map (c :: ·)
+
+/-- `url.QueryUnescape`, the decoder of the other escaping mode of net/url (counter-model of the
+witness theorem): as above, but `+` stands for a space. -/
+def queryUnescape : Bytes → Option Bytes
+  | [] => some []
+  | c :: t =>
+    if c == 0x25 then
+      match t with
+      | a :: b :: t' =>
+        match unhexDigit a, unhexDigit b, queryUnescape t' with
+        | some x, some y, some r => some (UInt8.ofNat (x * 16 + y) :: r)
+        | _, _, _ => none
+      | _ => none
+    else (queryUnescape t).map ((if c == 0x2B then 0x20 else c) :: ·)
+
+/-- how one byte of a message is written in a `grpc-message` value -/
+inductive Esc where
+  | plain | upper | lower
+deriving DecidableEq, Repr
+
+def encodeByte (b : UInt8) : Esc → Bytes
+  | .plain => [b]
+  | .upper => [0x25, upperHex (b.toNat / 16), upperHex (b.toNat % 16)]
+  | .lower => [0x25, lowerHex (b.toNat / 16), lowerHex (b.toNat % 16)]
+
+/-- a percent-encoding of a message: every byte with the way it is written -/
+def encodeWith : List (UInt8 × Esc) → Bytes
+  | [] => []
+  | (b, e) :: t => encodeByte b e ++ encodeWith t
+
+/-- the encoding is one the gRPC specification allows: a byte outside 0x20..0x7E and `%` is
+never written as itself (any byte may be escaped, with hex digits of either case) -/
+def conformant (cs : List (UInt8 × Esc)) : Bool := cs.all (fun be => !(be.2 == .plain && shouldEscape be.1))
+
+/-- the choice `PercentEncodeMessage` makes -/
+def ownChoice (m : Bytes) : List (UInt8 × Esc) := m.map (fun b => (b, if shouldEscape b then .upper else .plain))
+
+/-- the two comparisons of `checkGRPCStatus` between the carriers -/
+structure StatusDisagreement where
+  /-- "grpc-status-details-bin value that disagrees with grpc-status value" -/
+  code : Bool
+  /-- "grpc-status-details-bin value that disagrees with grpc-message value" -/
+  message : Bool
+deriving DecidableEq, Repr
+
+/-- `checkGRPCStatus` on well-formed trailers, as far as the decoded values go: without
+`grpc-status-details-bin` there is nothing to compare; a `grpc-message` that `PathUnescape`
+rejects is not compared either. -/
+def clientCheckStatus (t : StatusTrailers) : StatusDisagreement :=
+  match t.bin with
+  | none => { code := false, message := false }
+  | some s =>
+    { code := s.code != t.status,
+      message := match pathUnescape t.message with
+        | some d => d != s.message
+        | none => false }
+
 /-! ## strict codecs, relative to an underlying (un)marshaller
 
 `dec` returns the decoded message together with its unknown-field bytes. -/
